@@ -266,14 +266,14 @@ def compile_run(ddp, files, cfg=None, stdin="", timeout=10, main="main.ddp", ext
             shutil.rmtree(workdir, ignore_errors=True)
 
 
-def _link_run(ddp, workdir, cfg, r, stdin="", timeout=10, extra_c=None):
+def _link_run(ddp, workdir, cfg, r, stdin="", timeout=10, extra_c=None, objs=None):
     obj = os.path.join(workdir, "out.o")
     e = dict(os.environ)
     e["DDPPATH"] = ddp
     e["LOCPATH"] = LOCALE
     libdir = os.path.join(ddp, "lib_asan" if cfg.asan else "lib")
     exe = os.path.join(workdir, "prog")
-    link = ["gcc", "-o", exe, obj]
+    link = ["gcc", "-o", exe] + (list(objs) if objs else [obj])
     for c in (extra_c or []):
         link += [os.path.join(workdir, c)]
     link += ["-I" + os.path.join(ddp, "include")]
@@ -326,7 +326,7 @@ def farm(ddp, jobs, workers=None, daemons=5):
             with open(pth, "w", encoding="utf-8", newline="") as f:
                 f.write(txt)
         rq = {"dir": wd, "main": kw.get("main", "main.ddp"), "out": os.path.join(wd, "out.o"), "opt": cfg.opt,
-              "link_modules": cfg.module_link, "link_listdefs": cfg.listdefs_link}
+              "link_modules": True, "link_listdefs": cfg.listdefs_link, "separate": not cfg.module_link}
         lines.append(json.dumps(rq).encode().hex())
     env = dict(os.environ)
     env["DDPPATH"] = ddp
@@ -342,6 +342,13 @@ def farm(ddp, jobs, workers=None, daemons=5):
             a = json.loads(answers[i])
         except Exception:
             a = None
+        if (a is None or a.get("result") not in ("ok",)) and not cfg.module_link:
+            # separate modules exist only behind the hook: no kddp command line produces them
+            r.stage = "compile"
+            r.compile_out = json.dumps(a)[:3000] if a else "daemon gave no answer"
+            r.cls = "compile-rejected" if a and a.get("result") == "rejected" else "compile-internal-error"
+            shutil.rmtree(dirs[i], ignore_errors=True)
+            return r
         if a is None or a.get("result") not in ("ok",):
             # confirm with the real compiler binary (also covers daemon crashes)
             shutil.rmtree(dirs[i], ignore_errors=True)
@@ -350,7 +357,8 @@ def farm(ddp, jobs, workers=None, daemons=5):
             if compile_only:
                 r.cls = "ok"
                 return r
-            return _link_run(ddp, dirs[i], cfg, r, stdin=kw.get("stdin", ""), timeout=kw.get("timeout", 10), extra_c=kw.get("extra_c"))
+            return _link_run(ddp, dirs[i], cfg, r, stdin=kw.get("stdin", ""), timeout=kw.get("timeout", 10), extra_c=kw.get("extra_c"),
+                             objs=a.get("objs"))
         finally:
             shutil.rmtree(dirs[i], ignore_errors=True)
 
